@@ -386,6 +386,10 @@ class Doist(tyming.Tymist):
                     # write to doer.__func__.done read from doer.done
                     doer.__func__.done = ex.value if ex.value is not None else doer.done
                 continue  # don't append
+            except BaseException:  # enter of doer failed
+                if deeds is not self.deeds:  # doers already entered here would be orphaned
+                    self.exit(deeds=deeds)  # so force exit them before raising
+                raise
             deeds.append((dog, self.tyme, doer))  # first recur immediately
         return deeds
 
@@ -1285,6 +1289,10 @@ class DoDoer(Doer):
 
 
                 continue  # don't append already complete
+            except BaseException:  # enter of doer failed
+                if deeds is not self.deeds:  # doers already entered here would be orphaned
+                    self.exit(deeds=deeds)  # so force exit them before raising
+                raise
             deeds.append((dog, self.tyme, doer))
         return deeds
 
